@@ -15,3 +15,24 @@ package router
 //@   ensures [C07:class] BE16(b, len(q.Name)) == uint16(q.Class)
 //@   ensures [C07:type] BE16(b, len(q.Name)+2) == uint16(q.Type)
 //@   ensures [C07:mark] forall(j, 0, len(mark), b[len(q.Name)+4+j] == mark[j])
+
+// ---- ecs.go ----------------------------------------------------------------------------------
+// The netip methods used here (Unmap, Is4, Is6, Prefix, As4, As16) are executed from their real
+// source; only the identity of netip's family markers is assumed (see /verif/specs/ext).
+
+//@ spec func is4(a netip.Addr) bool = a.z == netip.z4
+//@ spec func isMapped(a netip.Addr) bool = a.z != netip.z0 && a.z != netip.z4 && a.addr.hi == 0 && (a.addr.lo >> 32) == 0xffff
+//@ spec func isValidAddr(a netip.Addr) bool = a.z != netip.z0
+
+//@ func makeEdns0ClientSubnetReqOpt(addr netip.Addr) (b pool.Buffer)
+//@   props C12
+//@   modifies nothing
+//@   ensures [C12:invalid] !isValidAddr(addr) ==> b == nil
+//@   ensures [C12:v4] is4(addr) || isMapped(addr) ==> len(b) == 11 && fresh(b)
+//@             && b[0] == 0 && b[1] == 8 && b[2] == 0 && b[3] == 7 && b[4] == 0 && b[5] == 1 && b[6] == 24 && b[7] == 0
+//@             && b[8] == byte(addr.addr.lo >> 24) && b[9] == byte(addr.addr.lo >> 16) && b[10] == byte(addr.addr.lo >> 8)
+//@   ensures [C12:v6] isValidAddr(addr) && !is4(addr) && !isMapped(addr) ==> len(b) == 15 && fresh(b)
+//@             && b[0] == 0 && b[1] == 8 && b[2] == 0 && b[3] == 11 && b[4] == 0 && b[5] == 2 && b[6] == 56 && b[7] == 0
+//@             && b[8] == byte(addr.addr.hi >> 56) && b[9] == byte(addr.addr.hi >> 48) && b[10] == byte(addr.addr.hi >> 40)
+//@             && b[11] == byte(addr.addr.hi >> 32) && b[12] == byte(addr.addr.hi >> 24) && b[13] == byte(addr.addr.hi >> 16)
+//@             && b[14] == byte(addr.addr.hi >> 8)
